@@ -13,6 +13,7 @@ import (
 	"io"
 	"math/rand"
 	"net"
+	"os"
 	"path/filepath"
 	"sync"
 	"time"
@@ -24,6 +25,7 @@ import (
 	"google.golang.org/grpc/credentials"
 	"google.golang.org/grpc/credentials/insecure"
 	"google.golang.org/grpc/peer"
+	"google.golang.org/grpc/status"
 
 	"verifharness/internal/ev"
 )
@@ -42,6 +44,8 @@ type tlsWitness struct {
 	// session-resumption scenarios: the endpoint at which the client obtained its TLS session
 	// before it connected to the endpoint under judgement (Options), and whether the client saw
 	// the session resumed there
+	// CA-file scenarios: state of the configured CA file at the moment of the connection
+	CAFile        string      `json:"ca_file_state,omitempty"`
 	SessionFrom   *serverOpts `json:"session_obtained_at,omitempty"`
 	ClientResumed bool        `json:"client_saw_session_resumed,omitempty"`
 }
@@ -68,40 +72,171 @@ func judgeTLS(r *ev.Run, w tlsWitness, accepted bool) {
 	w.Observed, w.Expected = acc(accepted), acc(exp)
 	r.Count("tls_observed_"+acc(accepted), 1)
 	where := w.Where
+	sfx := ""
+	if w.CAFile != "" {
+		sfx = "@ca-file:" + w.CAFile
+		r.Count("connections_under_ca_file_states", 1)
+		r.Distinct("ca_file_states", w.CAFile)
+	}
 	switch {
 	case !o.judged():
 		r.Count("tls_unjudged_no_ca_configured", 1)
 		r.Distinct("unjudged_observations", fmt.Sprintf("%s %s %s: %s", where, o.class(), s.Class, acc(accepted)))
 		switch s.Class {
-		case "canonical", "no-certificate", "self-signed", "other-ca":
+		case "canonical", "no-certificate", "self-signed", "other-ca", "host-trusted-ca":
 			noteUnjudged(o.class()+" / "+s.Class, acc(accepted))
+		}
+		if s.Class == "host-trusted-ca" && o.ClientCertAuth && o.AllowedCN == "" && o.AllowedHostname == "" && accepted {
+			// self-check of the harness: without a configured CA the endpoint verifies against the
+			// system pool, so this acceptance shows that the driver's host CA really is in it
+			r.Count("host_trust_store_effective_"+where, 1)
 		}
 		return
 	case s.Unjudged != "":
 		r.Count("tls_unjudged_variants", 1)
 		r.Distinct("unjudged_observations", fmt.Sprintf("%s %s %s: %s", where, o.class(), s.Class, acc(accepted)))
-		noteUnjudged(o.class()+" / "+s.Class, acc(accepted))
+		if sfx == "" || s.Class == "canonical" || s.Class == "host-trusted-ca" || s.Class == "other-ca" {
+			noteUnjudged(o.class()+" / "+s.Class+sfx, acc(accepted))
+		}
 		if accepted && !exp {
 			// the independent predicate says "not valid" and the server accepted: worth a note
 			r.Note(fmt.Sprintf("unjudged variant accepted although the reference predicate says no: %s %s %s", where, o.class(), s.Class))
 		}
 		return
 	case accepted && !exp:
-		r.Violation(fmt.Sprintf("tls-accepted-%s-%s-%s", where, o.class(), s.Class),
-			fmt.Sprintf("%s TLS endpoint (%s; allowed_cn=%q allowed_hostname=%q) accepted a client (max TLS %s) whose credential is %q: leaf issuer=%s validity=%s wrong_key=%v cn=%q dns=%v ips=%v; unrelated extra certificates sent along: %+v",
+		r.Violation(fmt.Sprintf("tls-accepted-%s-%s-%s%s", where, o.class(), s.Class, sfx),
+			fmt.Sprintf("%s TLS endpoint (%s; allowed_cn=%q allowed_hostname=%q)"+caNote(w.CAFile)+" accepted a client (max TLS %s) whose credential is %q: leaf issuer=%s validity=%s wrong_key=%v cn=%q dns=%v ips=%v; unrelated extra certificates sent along: %+v",
 				where, o.class(), o.AllowedCN, o.AllowedHostname, w.TLSMax, s.Class, s.Issuer, s.Validity, s.WrongKey, s.CN, s.DNS, s.IPs, s.Extras), w)
 	case !accepted && exp:
-		r.Violation(fmt.Sprintf("tls-refused-right-cert-%s-%s", where, o.class()),
-			fmt.Sprintf("%s TLS endpoint (%s; allowed_cn=%q allowed_hostname=%q) refused the canonical right credential (max TLS %s): cn=%q dns=%v ips=%v",
+		r.Violation(fmt.Sprintf("tls-refused-right-cert-%s-%s%s", where, o.class(), sfx),
+			fmt.Sprintf("%s TLS endpoint (%s; allowed_cn=%q allowed_hostname=%q)"+caNote(w.CAFile)+" refused the canonical right credential (max TLS %s): cn=%q dns=%v ips=%v",
 				where, o.class(), o.AllowedCN, o.AllowedHostname, w.TLSMax, s.CN, s.DNS, s.IPs), w)
 	}
 	r.Eval(1)
 	if s.Near {
-		r.Nontrivial(fmt.Sprintf("tls|%s|%s|%s|%s|%s|%v|%v|%v", where, o.class(), s.Class, w.TLSMax, s.CN, s.DNS, s.IPs, s.Extras))
+		r.Nontrivial(fmt.Sprintf("tls|%s|%s|%s|%s|%s|%v|%v|%v|%s", where, o.class(), s.Class, w.TLSMax, s.CN, s.DNS, s.IPs, s.Extras, w.CAFile))
 		if len(s.Extras) > 0 {
 			r.Count("multi_certificate_client_messages", 1)
 		}
 		r.Count("near_miss_certificates", 1)
+	}
+}
+
+func caNote(state string) string {
+	if state == "" {
+		return ""
+	}
+	return " while its configured CA file was in state " + strconvQuote(state) + " (the server's host trust store holds only the driver's host CA)"
+}
+
+func strconvQuote(s string) string { return fmt.Sprintf("%q", s) }
+
+// ---- CA-file states ----------------------------------------------------------------------------
+
+// caFileState: what the configured CA file looks like at the moment a client connects, after
+// the server was started with the proper file. judged: the statement speaks about "the trusted
+// CA the endpoint is configured with" - that is well defined while the file content is
+// unchanged or cannot be read at all; a file with other readable content (emptied, rotated to
+// another CA) is a configuration change whose meaning the statement does not fix.
+type caFileState struct {
+	name   string
+	judged bool
+	apply  func(path string, orig []byte, p *pki) error
+}
+
+func writeAtomic(path string, b []byte) error {
+	tmp := path + ".new"
+	if err := os.WriteFile(tmp, b, 0o600); err != nil {
+		return err
+	}
+	return os.Rename(tmp, path)
+}
+
+var caFileStates = []caFileState{
+	{"present-unchanged", true, func(path string, orig []byte, _ *pki) error { return writeAtomic(path, orig) }},
+	{"removed", true, func(path string, _ []byte, _ *pki) error { return os.Rename(path, path+".away") }},
+	{"half-written", true, func(path string, orig []byte, p *pki) error {
+		// a PEM block whose DER is cut in the middle: the file cannot be parsed
+		return writeAtomic(path, pemCert(p.trusted.der[:len(p.trusted.der)/2]))
+	}},
+	{"is-a-directory", true, func(path string, _ []byte, _ *pki) error {
+		_ = os.Remove(path)
+		return os.Mkdir(path, 0o755)
+	}},
+	{"emptied", false, func(path string, _ []byte, _ *pki) error { return writeAtomic(path, nil) }},
+	{"rotated-to-other-ca", false, func(path string, _ []byte, p *pki) error { return writeAtomic(path, pemCert(p.other.der)) }},
+	{"restored", true, func(path string, orig []byte, _ *pki) error { return writeAtomic(path, orig) }},
+}
+
+// runCAFileStates walks the configured CA file of a RUNNING endpoint through the states above
+// and connects, in each, with: a client carrying the right name whose certificate chains to a
+// CA of the server's host trust store (not to the configured CA), the usual foreign-CA /
+// self-signed / no-certificate clients, and the rightful client. connect reports acceptance by
+// a round trip. The oracle is unchanged: accepted only if the chain predicate against the
+// CONFIGURED CA holds. For acceptance the rightful client is binding only while the file
+// content is the configured one (present-unchanged, restored).
+func runCAFileStates(r *ev.Run, gid, where string, o serverOpts, p *pki, rng *rand.Rand, args []string,
+	connect func(c *tls.Certificate, maxVer uint16) (accepted, ok bool, detail string)) {
+	orig, err := os.ReadFile(p.caFile)
+	if err != nil {
+		r.Inconclusive(gid + ": CA-file scenario: " + err.Error())
+		return
+	}
+	restore := func() {
+		_ = os.RemoveAll(p.caFile)
+		_ = os.Remove(p.caFile + ".away")
+		_ = writeAtomic(p.caFile, orig)
+	}
+	defer restore()
+	right := canonicalSpec(rng, o)
+	creds := []certSpec{right}
+	for _, v := range chainVariants(right) {
+		switch v.Class {
+		case "host-trusted-ca", "other-ca", "self-signed", "no-certificate":
+			creds = append(creds, v)
+		}
+	}
+	type minted struct {
+		s certSpec
+		c *tls.Certificate
+	}
+	var ms []minted
+	for _, s := range creds {
+		c, err := p.mint(s)
+		if err != nil {
+			r.Inconclusive(gid + ": CA-file scenario: mint: " + err.Error())
+			return
+		}
+		ms = append(ms, minted{s, c})
+	}
+	for _, st := range caFileStates {
+		restore()
+		if err := st.apply(p.caFile, orig, p); err != nil {
+			r.Inconclusive(fmt.Sprintf("%s: CA-file scenario: cannot put the file into state %s: %v", gid, st.name, err))
+			continue
+		}
+		for _, m := range ms {
+			for _, tv := range tlsVersions {
+				accepted, ok, detail := connect(m.c, tv.v)
+				if !ok {
+					r.Inconclusive(fmt.Sprintf("%s: CA-file scenario %s/%s: %s", gid, st.name, m.s.Class, detail))
+					continue
+				}
+				s := m.s
+				s.Near = s.Class != "no-certificate"
+				switch {
+				case !st.judged:
+					s.Unjudged = "the CA file has other readable content than the configured one: what the endpoint should trust now is not defined by the statement"
+				case s.Class == "canonical" && st.name != "present-unchanged" && st.name != "restored":
+					s.Unjudged = "accept side while the CA file is unreadable: not judged"
+				}
+				w := tlsWitness{Group: gid, Tier: r.Tier, Seed: r.Seed, Where: where, Options: o, Cred: s, TLSMax: tv.name, CAFile: st.name, Args: args}
+				judgeTLS(r, w, accepted)
+				if s.Class == "host-trusted-ca" && st.judged {
+					keep("tls-ca-file-"+where, map[string]any{"group": gid, "where": where, "options": o, "ca_file_state": st.name, "credential": s, "client_max_tls": tv.name, "observed": acc(accepted), "detail": detail})
+				}
+			}
+		}
 	}
 }
 
@@ -289,6 +424,33 @@ func runTLSInproc(r *ev.Run, gid string, rng *rand.Rand, all bool) {
 		ep.ln.Close()
 	}
 	runResumptionInproc(r, gid, p, rng)
+	// CA-file states, one running endpoint per kind of name rule
+	for _, o := range []serverOpts{
+		{CA: true, AllowedCN: randCN(rng)},
+		{CA: true, ClientCertAuth: true, AllowedHostname: randHost(rng)},
+		{CA: true, ClientCertAuth: true},
+	} {
+		cfg, err := p.tlsInfo(o).ServerConfig()
+		if err != nil {
+			r.Inconclusive(fmt.Sprintf("%s: ServerConfig(%s) failed: %v", gid, o.class(), err))
+			continue
+		}
+		ep, err := serveTLS(cfg)
+		if err != nil {
+			r.Inconclusive(gid + ": listen: " + err.Error())
+			continue
+		}
+		runCAFileStates(r, gid, "inproc", o, p, rng, nil, func(c *tls.Certificate, maxVer uint16) (bool, bool, string) {
+			res := ep.connect(clientTLS(p, c, maxVer))
+			r.Count("handshakes_inproc", 1)
+			d := res.why
+			if res.serr != nil {
+				d = res.serr.Error()
+			}
+			return res.accepted, res.ok, d
+		})
+		ep.ln.Close()
+	}
 }
 
 // judgeResumed applies the oracle to a connection made with a TLS session obtained elsewhere:
@@ -618,6 +780,17 @@ func runTLSBinary(r *ev.Run, g tlsBinGroup, rng *rand.Rand, all bool) {
 	if g.kind == "leader" {
 		runResumptionBinary(r, g, in, p, rng, o)
 	}
+	// CA-file states against the running process. A refusal needs no liveness control here (the
+	// process is checked to be alive, and the rightful client must be served again once the
+	// file is restored); an acceptance speaks for itself.
+	runCAFileStates(r, g.id, where, o, p, rng, in.args, func(c *tls.Certificate, maxVer uint16) (bool, bool, string) {
+		if !in.alive() {
+			return false, false, "server process is gone: " + lastLine(in.logTail(3))
+		}
+		ok, d := rpcRoundTrip(in.api, clientTLS(p, c, maxVer))
+		r.Count("tls_rpc_probes", 1)
+		return ok, true, d
+	})
 	if g.control {
 		conn, err := dialTLS(in.api, goodCfg())
 		if err != nil {
@@ -650,6 +823,11 @@ func readyPlain(tablesToken string) func(ctx context.Context, in *instance) erro
 			return err
 		}
 		_, err = pb.NewTablesClient(conn).List(bearerCtx(ctx, tablesToken), &pb.ListTablesRequest{})
+		if status.Code(err) == codes.Unauthenticated {
+			// the server is up but refuses the configured token: that is for the monitor to
+			// judge (refused-right-token), not a reason to call the start-up inconclusive
+			return nil
+		}
 		return err
 	}
 }
